@@ -96,6 +96,7 @@ def cmd_eval(sel):
     ds = sorted(glob.glob(os.path.join(MUT, 'M*')))
     if sel:
         ds = [d for d in ds if os.path.basename(d) in sel or os.path.basename(d)[1:].lstrip('0') in sel]
+    ds = [d for d in ds if not json.load(open(os.path.join(d, 'meta.json'))).get('stale')]
     with ThreadPoolExecutor(int(os.environ.get('JOBS', '14'))) as ex:
         res = list(ex.map(eval_one, ds))
     miss = 0
